@@ -32,7 +32,7 @@ impl Adapter for RetryAd {
         json!({"hm": rng.below(4), "max": rng.below(5), "perReq": if rng.pct(30) { 1 } else { 0 }, "pred": *rng.pick(&["all", "noe2"]), "bo": bo,
                "b0": if bo == "rand" { 2 + 2 * rng.below(2) } else { 1 + rng.below(3) }, "cap": 4 + rng.below(5),
                "budget": if aimd { bmax } else { *rng.pick(&[-1i64, -1, 0, 1, 2, 3]) }, "bmax": if aimd { bmax } else { 3 },
-               "btype": if aimd { "aimd" } else { "tb" }, "ord": rng.below(12), "pre": rng.below(2), "alt": rng.below(2), "bctor": rng.below(3), "bmin": 1, "cost": 1 + rng.below(2), "amount": 1 + rng.below(2), "fnum": *rng.pick(&[0u64, 2, 3, 4])})
+               "btype": if aimd { "aimd" } else { "tb" }, "ord": rng.below(12), "pre": rng.below(2), "alt": rng.below(2), "bctor": rng.below(3), "base": if rng.pct(40) { 1 + rng.below(3) } else { 0 }, "bmin": 1, "cost": 1 + rng.below(2), "amount": 1 + rng.below(2), "fnum": *rng.pick(&[0u64, 2, 3, 4])})
     }
     fn build(&mut self, cfg: &Value, sim: &mut Sim) {
         let u = |k: &str| cfg[k].as_u64().unwrap();
@@ -67,7 +67,13 @@ impl Adapter for RetryAd {
             bud = Some(x);
         }
         steps.push(Box::new(|b: B| b.name("retry-under-test").on_retry(|_, _| {}).on_error(|_| {})));
-        let mut b = RetryLayer::<Req, IErr>::builder();
+        // cfg.base: start from a preset; every setting of it is overridden by the steps below
+        let mut b = match cfg["base"].as_u64().unwrap_or(0) {
+            1 => RetryLayer::<Req, IErr>::aggressive(),
+            2 => RetryLayer::<Req, IErr>::conservative(),
+            3 => RetryLayer::<Req, IErr>::exponential_backoff(),
+            _ => RetryLayer::<Req, IErr>::builder(),
+        };
         if cfg["pre"].as_u64().unwrap_or(0) == 1 {
             b = b.max_attempts(9).retry_on(|_e: &IErr| false).fixed_backoff(Duration::from_millis(50));
         }
